@@ -370,54 +370,271 @@ Proof.
     + intros H. codes. autorewrite with pst. split; [lia|]. split; [now apply sinv_pinv2|]. intros _. apply H.
 Qed.
 
+(* work that does not read *)
+Definition noread (r : list Z) (s1 : pst) (x : R) : Prop := snd (fst x) = r /\ calls (snd x) = calls s1.
+
+(* a reader (possibly ending at the end of input) followed by work that does not read *)
+Lemma el_after l s c r s1 x : rd l s c r s1 -> el r s1 x -> noread r s1 x -> el l s x.
+Proof.
+  destruct x as [[ret r2] s2]. intros [T _ E I _ _] (T2 & (C1 & C2 & C3) & S) [N1 N2]. cbn in N1, N2. subst r2.
+  unfold el. split; [|split].
+  - unfold tm, eofs in *. rewrite N2. exact T.
+  - split; [assumption|]. split.
+    + intros H. destruct (C2 H) as [n Hn]. exists n. now rewrite Hn, E.
+    + intros H. now rewrite (C3 H), E.
+  - intros H. apply S. auto.
+Qed.
+
+Lemma option_tail_noread take l s : noread l s (option_tail take l s).
+Proof. unfold option_tail, noread. destruct (negb (flag take NFEmpty)); cbn; autorewrite with pst; auto. Qed.
+
+(* the loop body with the continuation abstracted *)
+Definition option_body (f : format) (take : Z) (c : Z) (l : list Z) (s : pst) (next : pst -> R) : R :=
+  if isspace c then
+    if assign f =? 0 then option_assign f take MissingBuffer l s
+    else if c =? 10 then
+      (if negb (oend f =? 0) && negb (c =? oend f) then (BadValue, l, s) else option_tail take l s)
+    else next s
+  else if c =? assign f then option_assign f take MissingBuffer l s
+  else if c =? oend f then option_tail take l s
+  else if iscomment f c then
+    (if negb (oend f =? 0) then (BadValue, l, s)
+     else let '(_, r2, s2) := endline l s in option_tail take r2 s2)
+  else next (set_valid s).
+
+Lemma option_loop_eq f take c l s :
+  option_loop f take c l s =
+  option_body f take c l s (fun s1 =>
+    match l with
+    | [] => (MissingData, [], tick_eof s1)
+    | c' :: r =>
+      if c' <? 0 then ((if c' =? -2 then MissingData else BadArgument), r, tick_raw s1)
+      else option_loop f take c' r (if c' =? 0 then tick_raw s1 else addch (tick s1 c') c')
+    end).
+Proof. destruct l; reflexivity. Qed.
+
+Lemma option_body_el f take c l s next :
+  (forall s1, keeps s s1 -> el l s (next s1)) -> el l s (option_body f take c l s next).
+Proof.
+  intros NX. unfold option_body.
+  destruct (isspace c).
+  - destruct (assign f =? 0); [apply option_assign_el; codes; lia|].
+    destruct (c =? 10); [|apply NX, keeps_refl].
+    destruct (negb (oend f =? 0) && negb (c =? oend f)); [stop_leaf|apply option_tail_el].
+  - destruct (c =? assign f); [apply option_assign_el; codes; lia|].
+    destruct (c =? oend f); [apply option_tail_el|].
+    destruct (iscomment f c); [|apply NX, keeps_set_valid].
+    destruct (negb (oend f =? 0)); [stop_leaf|].
+    pose proof (endline_rd l s) as X. destruct (endline l s) as [[c2 r2] s2].
+    eapply el_after; [exact X|apply option_tail_el|apply option_tail_noread].
+Qed.
+
+(* continuation of the name loops: one more character *)
+Lemma loop_next_el (loop : Z -> list Z -> pst -> R) (err : Z -> Z) a l s s1 :
+  keeps s s1 -> (forall c s2, el l s2 (loop c l s2)) -> (forall c, err c <= 0 /\ err c <> RFault) ->
+  el (a :: l) s (if a <? 0 then (err a, l, tick_raw s1)
+                 else loop a l (if a =? 0 then tick_raw s1 else addch (tick s1 a) a)).
+Proof.
+  intros (K1 & K2 & K3 & K4) IH ER.
+  assert (P0 : pre_ok (a :: l) s (a :: l) s1).
+  { eapply pre_ok_tweak; [apply pre_ok_refl|..]; auto. }
+  destruct (a <? 0).
+  - eapply el_pre; [eapply pre_ok_trans; [exact P0|apply pre_ok_tick_raw]|].
+    destruct (ER a) as [ER1 ER2]. apply el_stop; [assumption|reflexivity|].
+    intros HS. split; [assumption|now apply sinv_pinv2].
+  - eapply el_pre; [|apply IH].
+    destruct (a =? 0).
+    + eapply pre_ok_trans; [exact P0|apply pre_ok_tick_raw].
+    + apply pre_ok_addch. eapply pre_ok_trans; [exact P0|apply pre_ok_tick].
+Qed.
+Lemma loop_eof_el ret s s1 :
+  keeps s s1 -> ret <= 0 -> ret <> RFault -> el [] s (ret, [], tick_eof s1).
+Proof.
+  intros (K1 & K2 & K3 & K4) A B. apply el_stop_eof; [assumption|autorewrite with pst; lia|].
+  intros H. split; [assumption|]. autorewrite with pst. apply sinv_pinv2. auto.
+Qed.
+
 Lemma option_loop_el f take l : forall c s, el l s (option_loop f take c l s).
 Proof.
-  induction l as [|a l IH]; intros c s.
-  - cbn [option_loop].
-    assert (NX : forall s1, keeps s s1 -> el [] s (MissingData, [], tick_eof s1)).
-    { intros s1 (K1 & K2 & K3 & K4). apply el_stop_eof; [codes; lia|autorewrite with pst; lia|].
-      intros H. split; [codes; lia|]. autorewrite with pst. apply sinv_pinv2. auto. }
-    destruct (isspace c).
-    + destruct (assign f =? 0); [apply option_assign_el; codes; lia|].
-      destruct (c =? 10); [|apply NX, keeps_refl].
-      destruct (negb (oend f =? 0) && negb (c =? oend f)); [stop_leaf|apply option_tail_el].
-    + destruct (c =? assign f); [apply option_assign_el; codes; lia|].
-      destruct (c =? oend f); [apply option_tail_el|].
-      destruct (iscomment f c); [|apply NX, keeps_set_valid].
-      destruct (negb (oend f =? 0)); [stop_leaf|].
-      cbn [endline]. eapply el_stop_eof with (ret := _) in NX.
-      * (* endline on the empty input, then the tail *)
-        clear NX. pose proof (option_tail_el take [] (tick_eof s)) as X.
-        destruct (option_tail take [] (tick_eof s)) as [[ret r] s'] eqn:OT.
-        unfold el in *. destruct X as (T & E & S). split; [|split].
-        -- unfold option_tail in OT. destruct (negb (flag take NFEmpty)); inversion OT; subst;
-             unfold tm, eofs; autorewrite with pst; (split; [auto with sfx|]); (split; [lia|]); (split; [lia|]); reflexivity.
-        -- unfold eff in *. autorewrite with pst in E. exact E.
-        -- intros H. apply S. now apply sinv_tick_eof.
-      * apply keeps_refl.
-  - cbn [option_loop].
-    assert (NX : forall s1, keeps s s1 ->
-       el (a :: l) s (if a <? 0 then (if a =? -2 then MissingData else BadArgument, l, tick_raw s1)
-                      else option_loop f take a l (if a =? 0 then tick_raw s1 else addch (tick s1 a) a))).
-    { intros s1 (K1 & K2 & K3 & K4).
-      assert (P0 : pre_ok (a :: l) s (a :: l) s1).
-      { eapply pre_ok_tweak; [apply pre_ok_refl|..]; auto. }
-      destruct (a <? 0).
-      - eapply el_pre; [eapply pre_ok_trans; [exact P0|apply pre_ok_tick_raw]|].
-        apply el_stop; [destruct (a =? -2); codes; lia|reflexivity|].
-        intros H. split; [destruct (a =? -2); codes; lia|now apply sinv_pinv2].
-      - eapply el_pre; [|apply IH].
-        destruct (a =? 0).
-        + eapply pre_ok_trans; [exact P0|apply pre_ok_tick_raw].
-        + apply pre_ok_addch. eapply pre_ok_trans; [exact P0|apply pre_ok_tick]. }
-    destruct (isspace c).
-    + destruct (assign f =? 0); [apply option_assign_el; codes; lia|].
-      destruct (c =? 10); [|apply NX, keeps_refl].
-      destruct (negb (oend f =? 0) && negb (c =? oend f)); [stop_leaf|apply option_tail_el].
-    + destruct (c =? assign f); [apply option_assign_el; codes; lia|].
-      destruct (c =? oend f); [apply option_tail_el|].
-      destruct (iscomment f c); [|apply NX, keeps_set_valid].
-      destruct (negb (oend f =? 0)); [stop_leaf|].
-      pose proof (endline_rd (a :: l) s) as X. destruct (endline (a :: l) s) as [[c2 r2] s2].
-      admit.
-Admitted.
+  induction l as [|a l IH]; intros c s; rewrite option_loop_eq; apply option_body_el; intros s1 K.
+  - apply loop_eof_el; [assumption|codes; lia|codes; lia].
+  - apply (loop_next_el (option_loop f take) (fun c' => if c' =? -2 then MissingData else BadArgument));
+      [assumption|exact IH|]. intros x. destruct (x =? -2); codes; lia.
+Qed.
+
+Lemma parse_option_el f a l s : el l s (parse_option f a l s).
+Proof.
+  unfold parse_option. pose proof (nextvis_rd f l s) as X. destruct (nextvis f l s) as [[c r] s1].
+  destruct (c <? 0) eqn:CN.
+  - destruct (negb (c =? -2)).
+    + eapply el_after; [exact X| |split; cbn; now autorewrite with pst]. stop_leaf.
+    + eapply el_after; [exact X| |split; cbn; now autorewrite with pst].
+      apply el_stop; [destruct (pelems _); codes; lia|now autorewrite with pst|].
+      intros H. split; [destruct (pelems _); codes; lia|autorewrite with pst; now apply sinv_pinv2].
+  - apply Z.ltb_ge in CN. pose proof (rd_pre _ _ _ _ _ X CN) as P.
+    eapply el_pre; [exact P|].
+    destruct (negb (ostart f =? 0) && negb (c =? ostart f) && negb (valid s1 =? 0)); [stop_leaf|].
+    eapply el_pre; [|apply option_loop_el]. auto with pre.
+Qed.
+
+(* ---------------------------------------------------------------- sections, prefix style *)
+Lemma el_after' l s r s1 x :
+  tm l s r s1 -> pelems (pth s1) = pelems (pth s) -> (sinv s -> sinv s1) ->
+  el r s1 x -> noread r s1 x -> el l s x.
+Proof.
+  destruct x as [[ret r2] s2]. intros T E I (T2 & (C1 & C2 & C3) & S) [N1 N2]. cbn in N1, N2. subst r2.
+  unfold el. split; [|split].
+  - unfold tm, eofs in *. rewrite N2. exact T.
+  - split; [assumption|]. split.
+    + intros H. destruct (C2 H) as [n Hn]. exists n. now rewrite Hn, E.
+    + intros H. now rewrite (C3 H), E.
+  - intros H. apply S. auto.
+Qed.
+
+Lemma tm_eof s s1 : calls s1 = calls s -> tm [] s [] (tick_eof s1).
+Proof.
+  intros C. unfold tm, eofs. autorewrite with pst.
+  split; [auto with sfx|]. split; [lia|]. split; [lia|]. reflexivity.
+Qed.
+
+(* results that keep the elements: section end (2) and data (4) *)
+Lemma el_keep l s ret s' :
+  ret = 2 \/ ret = 4 -> calls s' = calls s -> pelems (pth s') = pelems (pth s) -> (sinv s -> sinv s') ->
+  el l s (ret, l, s').
+Proof.
+  intros A C E I. unfold el. split; [now apply tm_refl|]. split.
+  - unfold eff, okret. split; [lia|]. split; [intros; exfalso; lia|auto].
+  - intros H. destruct (I H) as [P V]. split; [codes; lia|]. split; [assumption|]. auto.
+Qed.
+
+Lemma section_add_el take cur l s : el l s (section_add take cur l s).
+Proof.
+  unfold section_add. set (s1 := with_curr s cur).
+  assert (K : keeps s s1) by (subst s1; unfold keeps; autorewrite with pst; auto using sinv_with_curr).
+  destruct K as (K1 & K2 & K3 & _).
+  destruct (ncheck s1 (valid s1) take <? 0) eqn:N.
+  - apply el_stop; [destruct (_ =? RFault); codes; lia|assumption|].
+    intros H. split; [|apply sinv_pinv2; auto].
+    pose proof (ncheck_safe s1 take (K3 H)) as X. apply Z.eqb_neq in X. rewrite X. codes; lia.
+  - destruct (path_add (pth s1) (valid s1)) as [a p1] eqn:PA.
+    destruct (a <? 0) eqn:AN.
+    + apply el_stop; [codes; lia|assumption|]. intros H. split; [codes; lia|apply sinv_pinv2; auto].
+    + apply Z.ltb_ge in AN. destruct (path_add_elems _ _ _ _ PA) as [[X _]|[_ PE]]; [lia|].
+      unfold el. split; [apply tm_refl; now autorewrite with pst|]. split.
+      * unfold eff, okret. codes. autorewrite with pst. split; [lia|]. split; [|intros; exfalso; lia].
+        intros _. eexists. rewrite PE, K2. reflexivity.
+      * intros H. codes. autorewrite with pst. split; [lia|]. split; [|intros; exfalso; lia].
+        eapply path_add_pinv; [|exact PA]. apply sinv_pinv2; auto.
+Qed.
+Lemma section_add_noread take cur l s : noread l s (section_add take cur l s).
+Proof.
+  unfold section_add, noread.
+  destruct (_ <? 0); [cbn; now autorewrite with pst|].
+  destruct (path_add _ _) as [a p1]. destruct (a <? 0); cbn; now autorewrite with pst.
+Qed.
+
+Lemma pre_tail_el f a c l s : el l s (pre_tail f a c l s).
+Proof.
+  unfold pre_tail.
+  destruct (negb (sstart f =? 0) && (c =? sstart f)); [apply section_add_el|].
+  destruct (negb (oend f =? 0) && (c =? oend f)); [|stop_leaf].
+  destruct (ncheck (with_curr s PData) 0 (aopt a) <? 0).
+  - stop_leaf.
+  - apply el_keep; [codes; auto|now autorewrite with pst|now autorewrite with pst|apply sinv_with_curr].
+Qed.
+Lemma pre_tail_noread f a c l s : noread l s (pre_tail f a c l s).
+Proof.
+  unfold pre_tail.
+  destruct (negb (sstart f =? 0) && (c =? sstart f)); [apply section_add_noread|].
+  destruct (negb (oend f =? 0) && (c =? oend f)); [|split; cbn; now autorewrite with pst].
+  destruct (_ <? 0); split; cbn; now autorewrite with pst.
+Qed.
+
+Definition pre_body (f : format) (a : allow) (c : Z) (l : list Z) (s : pst) (next : pst -> R) : R :=
+  if c <? 0 then (MissingData, l, s)
+  else if c =? send f then (PSectEnd, l, with_curr s PSectEnd)
+  else if c =? sstart f then pre_tail f a c l s
+  else if c =? ostart f then parse_option f a l s
+  else if c =? assign f then option_assign f (aopt a) BadOperation l (with_curr s (Z.lor POption PName))
+  else if c =? oend f then pre_tail f a c l s
+  else if iscomment f c then let '(_, r2, s2) := endline l s in pre_tail f a c r2 s2
+  else
+    let s1 := with_curr s PName in
+    if negb (isspace c) then next (set_valid s1)
+    else if c =? 10 then
+      let '(c2, r2, s2) := nextvis f l s1 in
+      pre_tail f a c2 r2 (addch s2 c2)
+    else next s1.
+
+Lemma pre_loop_eq f a c l s :
+  pre_loop f a c l s =
+  pre_body f a c l s (fun s1 =>
+    match l with
+    | [] => pre_tail f a (-2) [] (tick_eof s1)
+    | c' :: r =>
+      if c' <? 0 then pre_tail f a c' r (tick_raw s1)
+      else pre_loop f a c' r (if c' =? 0 then tick_raw s1 else addch (tick s1 c') c')
+    end).
+Proof. destruct l; reflexivity. Qed.
+
+Lemma keeps_with_curr s c : keeps s (with_curr s c) -> True. Proof. auto. Qed.
+
+Lemma pre_body_el f a c l s next :
+  (forall s1, calls s1 = calls s -> pelems (pth s1) = pelems (pth s) -> (sinv s -> sinv s1) -> el l s (next s1)) ->
+  el l s (pre_body f a c l s next).
+Proof.
+  intros NX. unfold pre_body.
+  destruct (c <? 0); [stop_leaf|].
+  destruct (c =? send f).
+  { apply el_keep; [codes; auto|now autorewrite with pst|now autorewrite with pst|apply sinv_with_curr]. }
+  destruct (c =? sstart f); [apply pre_tail_el|].
+  destruct (c =? ostart f); [apply parse_option_el|].
+  destruct (c =? assign f).
+  { eapply el_pre; [|apply option_assign_el; codes; lia]. auto with pre. }
+  destruct (c =? oend f); [apply pre_tail_el|].
+  destruct (iscomment f c).
+  { pose proof (endline_rd l s) as X. destruct (endline l s) as [[c2 r2] s2].
+    eapply el_after; [exact X|apply pre_tail_el|apply pre_tail_noread]. }
+  destruct (negb (isspace c)).
+  { apply NX; autorewrite with pst; auto.
+    intros H. apply sinv_set_valid. autorewrite with pst. now apply sinv_pinv2. }
+  destruct (c =? 10).
+  - pose proof (nextvis_rd f l (with_curr s PName)) as X.
+    destruct (nextvis f l (with_curr s PName)) as [[c2 r2] s2].
+    destruct X as [T _ E I _ _].
+    eapply (el_after' l s r2 (addch s2 c2)).
+    + unfold tm, eofs in *. autorewrite with pst in *. exact T.
+    + autorewrite with pst in *. exact E.
+    + intros H. apply sinv_addch. apply I. now apply sinv_with_curr.
+    + apply pre_tail_el.
+    + apply pre_tail_noread.
+  - apply NX; autorewrite with pst; auto using sinv_with_curr.
+Qed.
+
+Lemma pre_loop_el f a l : forall c s, el l s (pre_loop f a c l s).
+Proof.
+  induction l as [|x l IH]; intros c s; rewrite pre_loop_eq; apply pre_body_el; intros s1 K1 K2 K3.
+  - eapply (el_after' [] s [] (tick_eof s1)); [now apply tm_eof|now autorewrite with pst| |apply pre_tail_el|apply pre_tail_noread].
+    intros H. apply sinv_tick_eof. auto.
+  - assert (P0 : pre_ok (x :: l) s (x :: l) s1).
+    { eapply pre_ok_tweak; [apply pre_ok_refl|..]; auto. }
+    destruct (x <? 0).
+    + eapply el_pre; [eapply pre_ok_trans; [exact P0|apply pre_ok_tick_raw]|apply pre_tail_el].
+    + eapply el_pre; [|apply IH].
+      destruct (x =? 0).
+      * eapply pre_ok_trans; [exact P0|apply pre_ok_tick_raw].
+      * apply pre_ok_addch. eapply pre_ok_trans; [exact P0|apply pre_ok_tick].
+Qed.
+
+Lemma format_pre_el f a l s : el l s (format_pre f a l s).
+Proof.
+  unfold format_pre. pose proof (nextvis_rd f l s) as X. destruct (nextvis f l s) as [[c r] s1].
+  destruct (c <? 0) eqn:CN.
+  - eapply el_after; [exact X| |split; reflexivity].
+    apply el_stop; [destruct (pelems _); codes; lia|reflexivity|].
+    intros H. split; [destruct (pelems _); codes; lia|now apply sinv_pinv2].
+  - apply Z.ltb_ge in CN. pose proof (rd_pre _ _ _ _ _ X CN) as P.
+    eapply el_pre; [exact P|].
+    destruct (c =? sstart f); [apply section_add_el|].
+    eapply el_pre; [|apply pre_loop_el]. auto with pre.
+Qed.
